@@ -1441,4 +1441,148 @@ theorem inPlace_reject {σ : Type} (v : Except Reject Unit) (step : σ → σ) (
     inPlace v step s = (s, .error .reject) := by
   subst h; rfl
 
+/-! ### algorithm options -/
+
+theorem optPerm_iff (N : Nat) (o : Option (List Int)) : optPerm N o = true ↔ optAll o (fun p => IsPermI p N) := by
+  cases o with
+  | none => simp [optPerm, optAll]
+  | some p => simp [optPerm, optAll, isPermOfI_iff]
+
+theorem optModes_iff (N : Nat) (o : Option (List Int)) : optModes N o = true ↔ optAll o (ModesOK N) := by
+  cases o with
+  | none => simp [optModes, optAll]
+  | some d =>
+    simp only [optModes, optAll, Bool.and_eq_true, allInRange_iff, Bool.not_eq_true', hasDupI_false, ModesOK]
+
+theorem shapeEq_iff (s shape : List Nat) : shapeEq s shape = true ↔ s = shape := by
+  unfold shapeEq
+  rw [Bool.and_eq_true, List.all_eq_true, beq_iff_eq]
+  constructor
+  · rintro ⟨hl, h⟩
+    apply List.ext_getElem hl
+    intro i h1 h2
+    have := beq_iff_eq.1 (h i (List.mem_range.2 h2))
+    rwa [getD_of_lt _ _ _ h1, getD_of_lt _ _ _ h2] at this
+  · rintro rfl
+    exact ⟨rfl, fun k _ => beq_self_eq_true _⟩
+
+theorem initCpAls_iff (i : InitSpec) (shape : List Nat) (rank : Int) :
+    initCpAls i shape rank = true ↔ i.fitsCp shape rank true := by
+  unfold initCpAls InitSpec.fitsCp
+  cases i <;> simp [shapeEq_iff]
+
+theorem optEmpty_iff (N : Nat) (o : Option (List Int)) (h : optAll o (ModesOK N)) :
+    optEmpty o = false ↔ optAll o (fun d => ModesOK N d ∧ d ≠ []) := by
+  cases o with
+  | none => simp [optEmpty, optAll]
+  | some d =>
+    simp only [optAll] at h
+    simp [optEmpty, optAll, h]
+
+theorem validate_cpAls_ok_iff (a : CpAlsArgs) : validate_cpAls a = .ok () ↔ Pre_cpAls a := by
+  unfold validate_cpAls Pre_cpAls
+  rw [← initCpAls_iff, ← optPerm_iff]
+  by_cases h2 : optModes a.shape.length a.optdims = true
+  · have h2' := (optModes_iff _ _).1 h2
+    rw [← optEmpty_iff _ _ h2']
+    by_cases hN : a.shape.length = 0
+    · cases h1 : optPerm a.shape.length a.dimorder <;> cases h3 : decide (0 < a.rank) <;>
+        cases h4 : initCpAls a.init a.shape a.rank <;> cases h5 : optEmpty a.optdims <;> simp_all [rejectIf]
+    · have hN' : 0 < a.shape.length := by omega
+      cases h1 : optPerm a.shape.length a.dimorder <;> cases h3 : decide (0 < a.rank) <;>
+        cases h4 : initCpAls a.init a.shape a.rank <;> cases h5 : optEmpty a.optdims <;> simp_all [rejectIf]
+  · have : ¬ optAll a.optdims (fun d => ModesOK a.shape.length d ∧ d ≠ []) := by
+      intro h
+      apply h2
+      rw [optModes_iff]
+      cases ho : a.optdims with
+      | none => trivial
+      | some d => rw [ho] at h; exact h.1
+    cases h1 : optPerm a.shape.length a.dimorder <;> simp_all
+
+theorem initCpApr_iff (i : InitSpec) (shape : List Nat) (rank : Int) :
+    initCpApr i shape rank = true ↔ i.fitsApr shape rank := by
+  unfold initCpApr InitSpec.fitsApr
+  cases i <;> simp [shapeEq_iff, and_assoc]
+
+theorem validate_cpApr_ok_iff (a : CpAprArgs) : validate_cpApr a = .ok () ↔ Pre_cpApr a := by
+  unfold validate_cpApr Pre_cpApr
+  rw [← initCpApr_iff]
+  cases h1 : decide (0 < a.rank) <;> cases h2 : a.dataNonneg <;> cases h3 : initCpApr a.init a.shape a.rank <;>
+    cases h4 : a.algorithm <;> simp_all [rejectIf]
+
+theorem validate_hosvd_ok_iff (N : Nat) (ranks : Option Nat) (dimorder : Option (List Int)) :
+    validate_hosvd N ranks dimorder = .ok () ↔ Pre_hosvd N ranks dimorder := by
+  unfold validate_hosvd Pre_hosvd
+  have hr : optLen N ranks = true ↔ optAll ranks (fun k => k = N) := by
+    cases ranks <;> simp [optLen, optAll]
+  by_cases h1 : optLen N ranks = true
+  · rw [if_neg (by rw [not_bnot_true]; exact h1), rejectIf_ok, Bool.not_eq_false', optPerm_iff]
+    simp [hr.1 h1]
+  · rw [if_pos (by rw [bnot_true]; exact h1)]
+    simp only [error_ne_ok, false_iff]
+    rintro ⟨h, _⟩; exact h1 (hr.2 h)
+
+theorem initTucker_iff (i : InitSpec) (shape : List Nat) (rank order : List Int) :
+    initTucker i shape rank order = true ↔ i.fitsTucker shape rank order := by
+  unfold initTucker InitSpec.fitsTucker
+  cases i <;> simp [List.all_eq_true]
+
+theorem validate_tucker_ok_iff (a : TuckerArgs) : validate_tucker a = .ok () ↔ Pre_tucker a := by
+  unfold validate_tucker Pre_tucker
+  rw [← initTucker_iff, ← optPerm_iff]
+  by_cases h2 : a.rank.length = 1 ∨ a.rank.length = a.shape.length
+  · have h2' : (!(a.rank.length == 1 || a.rank.length == a.shape.length)) = false := by
+      rcases h2 with h | h <;> simp [h]
+    by_cases hN : a.shape.length = 0
+    · cases h1 : a.maxitersNonneg <;> cases h3 : optPerm a.shape.length a.dimorder <;>
+        cases h4 : initTucker a.init a.shape a.rank (a.dimorder.getD ((List.range a.shape.length).map Int.ofNat)) <;>
+        simp_all [rejectIf]
+    · have hN' : 0 < a.shape.length := by omega
+      cases h1 : a.maxitersNonneg <;> cases h3 : optPerm a.shape.length a.dimorder <;>
+        cases h4 : initTucker a.init a.shape a.rank (a.dimorder.getD ((List.range a.shape.length).map Int.ofNat)) <;>
+        simp_all [rejectIf]
+  · have h2' : (!(a.rank.length == 1 || a.rank.length == a.shape.length)) = true := by
+      simp only [not_or] at h2
+      simp [h2.1, h2.2]
+    cases h1 : a.maxitersNonneg <;> simp_all
+
+theorem initGcp_iff (i : InitSpec) (shape : List Nat) (rank : Int) :
+    initGcp i shape rank = true ↔ i.fitsGcp shape rank := by
+  unfold initGcp InitSpec.fitsGcp
+  cases i with
+  | ktensor s R nf nw => simp
+  | mats ms =>
+    simp only [Bool.and_eq_true, Bool.not_eq_true', List.isEmpty_eq_false_iff, List.all_eq_true, beq_iff_eq,
+      decide_eq_true_eq, ne_eq]
+    constructor
+    · rintro ⟨⟨⟨hne, hall⟩, hs⟩, hr⟩
+      refine ⟨hne, fun m hm => ?_, hs⟩
+      rw [hall m hm]; exact hr
+    · rintro ⟨hne, hall, hs⟩
+      have h0 : ms.getD 0 (0, 0) ∈ ms := by
+        cases ms with
+        | nil => exact absurd rfl hne
+        | cons x xs => simp
+      have hr := hall _ h0
+      refine ⟨⟨⟨hne, fun m hm => ?_⟩, hs⟩, hr⟩
+      have := hall m hm
+      omega
+  | random => simp
+  | nvecs => simp
+  | other => simp
+
+theorem validate_gcp_ok_iff (a : GcpArgs) : validate_gcp a = .ok () ↔ Pre_gcp a := by
+  unfold validate_gcp Pre_gcp
+  rw [← initGcp_iff]
+  cases hm : a.mask with
+  | none =>
+    cases hsp : a.sparse <;> cases ho : a.objectiveOk <;> cases hi : initGcp a.init a.shape a.rank <;>
+      by_cases hs0 : a.solver = 0 <;> by_cases hs1 : a.solver = 1 <;>
+      simp_all [maskFits, optAll, rejectIf]
+  | some m =>
+    cases hsp : a.sparse <;> cases ho : a.objectiveOk <;> cases hi : initGcp a.init a.shape a.rank <;>
+      by_cases hs0 : a.solver = 0 <;> by_cases hs1 : a.solver = 1 <;> by_cases hms : m = a.shape <;>
+      simp_all [maskFits, optAll, rejectIf]
+
 end Pyttb
